@@ -149,6 +149,11 @@ def final_outcome(run):
 
 def mon_c03(run, case, stmts):
     b = run.backend
+    # a checkpoint failure is not an outcome user code may handle: it must not be catchable by `except Exception`
+    for o in run.obs:
+        if o["kind"] == "try" and o["out"] == "caught" and o.get("exc") in ("BackgroundThreadError", "OrphanedChildException"):
+            run.v("C03", "checkpoint_failure_caught_by_user_code", o["exc"],
+                  f"{o['path']} (invocation {o['inv']}): `except Exception` in user code caught {o['exc']}({o.get('msg', '')[:80]!r}) and the workflow carried on without the record being accepted")
     # create_callback returns only an id the backend issued in an accepted START
     for c in run.callback_ids:
         if c.get("via"):
